@@ -1119,7 +1119,8 @@ selftest(
     Mutant('layout-fill-zero', BT, 'np.full(len(system._outputs), -np.inf)', 'np.full(len(system._outputs), 0.0)',
            'C10.layout'),
     Mutant('layout-end-assign', BT, 'end += val.size', 'end = val.size', 'C10.layout', nth=1),
-    Mutant('layout-all-finite', BT, 'if np.any(np.isfinite(scaled_lower)):', 'if np.all(np.isfinite(scaled_lower)):',
+    Mutant('layout-all-finite', BT, '                self._lower_bounds[start:end] = scaled_lower\n',
+           '                if np.all(np.isfinite(scaled_lower)):\n                    self._lower_bounds[start:end] = scaled_lower\n',
            'C10.layout'),
     Mutant('layout-drop-ravel', BT, '                elif not np.isscalar(var_lower):\n                    var_lower = var_lower.ravel()',
            '                elif False:\n                    var_lower = var_lower.ravel()', 'C10.layout'),
@@ -1236,8 +1237,8 @@ selftest(
          "                if metadata['lower'] is not None:\n                    subsys._has_bounds = True\n                elif metadata['upper'] is not None:\n                    subsys._has_bounds = True"),
     Twin('twin-flag-or-assign', _G, '                grp._has_bounds |= subsys._has_bounds\n',
          '                grp._has_bounds = grp._has_bounds or subsys._has_bounds\n'),
-    Twin('twin-fresh-repaired', BT, '        super()._setup_solvers(system, depth)\n        if system._has_bounds:',
-         '        super()._setup_solvers(system, depth)\n        self._lower_bounds = self._upper_bounds = None\n        if system._has_bounds:'),
+    Twin('twin-fresh-reset-split', BT, '        self._lower_bounds = self._upper_bounds = None\n        if system._has_bounds:',
+         '        self._upper_bounds = None\n        self._lower_bounds = None\n        if system._has_bounds:'),
     Twin('twin-wall-repaired', BT, '    change = change_lower + change_upper\n\n    u_data += change\n    du_data += change / alpha',
          '    change = change_lower + change_upper\n    if np.isscalar(change):\n        return\n\n    u_data += change\n    du_data += change / alpha'),
     Twin('twin-flag-repaired', _C, '        if isscalar(ref):\n            self._has_output_scaling |= ref != 1.0',
